@@ -26,8 +26,13 @@ def run_b2(ctx: core.Ctx, make_jobs, mons, hidden=("clock",), log_visible=False,
                           {"path": "b2", "spec": spec, "seed": seed, "preempt": pre, "choices": r.get("choice_list"), "monitor": v["monitor"], "kind": v["kind"],
                            "trace_tail": [e for e in r.get("trace", []) if e["k"] not in ("read_enter", "clock")][-80:]},
                           {"kind": v["kind"], "monitor": v["monitor"]})
+        if accept and r.get("accept", "").startswith("DRIVER-ERROR") and "timed out" in r["accept"]:
+            # the acceptor normally needs well under a second (a few dozen model states); a run it cannot decide in minutes is a run the
+            # model does not explain in any ordinary way: reported like a rejection (after the search for a concrete failing input)
+            rejected.append({"spec": spec, "seed": seed, "preempt": pre, "verdict": "UNDECIDED: the acceptor did not finish within its time limit (state explosion)"})
+            continue
         if accept and r.get("accept", "").startswith("DRIVER-ERROR"):
-            raise RuntimeError(f"the trace acceptor failed or timed out (harness problem, not a verdict): {r['accept'][:300]} seed={seed}")
+            raise RuntimeError(f"the trace acceptor failed (harness problem, not a verdict): {r['accept'][:300]} seed={seed}")
         if accept and not r.get("accept", "").startswith("ACCEPT"):
             rejected.append({"spec": spec, "seed": seed, "preempt": pre, "verdict": r.get("accept"), "rejecting_event": r.get("reject_line"),
                              "context": r.get("reject_context")})
